@@ -119,6 +119,28 @@ def run(chk):
         add("R", xs, rng.choice([1, 2]), rng.choice(list(dists)), rng.choice(mcds), model=False)
     b.run()
 
+    # the reported value is the custom distance in every output format (a real-valued distance must not be truncated)
+    for xs in corner[1:] + [gen.sub_collection(rng, pool, 8) for _ in range(4)]:
+        for dname in ("lev/2", "mix"):
+            fn = dists[dname]
+            for e in (nn.symdel, nn.hash_based, nn.kdtree):
+                trip = core.call_real(lambda: e(xs, max_edits=1, custom_distance=fn, max_custom_distance=2.0))
+                if trip[0] != "ok":
+                    continue
+                want = [[0.0] * len(xs) for _ in xs]
+                for q, r, d in trip[1]:
+                    want[int(r)][int(q)] = float(d)
+                for ot in ("ndarray", "coo_matrix"):
+                    real = core.call_real(lambda: e(xs, max_edits=1, custom_distance=fn, max_custom_distance=2.0, output_type=ot))
+                    got = None
+                    if real[0] == "ok":
+                        got = np.asarray(real[1].toarray() if ot == "coo_matrix" else real[1]).astype(float).tolist()
+                    chk.case(nontrivial_key=("custom-format", e.__name__, ot, dname, str(xs)) if trip[1] else None)
+                    if got != want:
+                        chk.violation(f"C14|{e.__name__}-custom|{ot}|value-not-custom-distance",
+                                      f"{e.__name__}(output_type={ot}) does not report the custom distance {dname} of each pair",
+                                      {"xs": xs, "dist": dname, "real": str(got)[:1200], "want": str(want)[:1200]})
+
     # ---- nearest_neighbor_tcrdist against the stand-in
     idxA, _, MA = load_vtable("alpha")
     idxB, _, MB = load_vtable("beta")
@@ -145,9 +167,13 @@ def run(chk):
         trimmed = rng.choice([True, False])
         k = rng.choice([1, 2])
         max_t = rng.choice([0, 12, 24, 50, 200])
+        # custom TCRdist parameters in some calls, the defaults in the others (parameters of one call must not leak into the next)
+        tk = rng.choice([{}, {}, {"ntrim": 2, "ctrim": 1, "dist_weight": 1, "gap_penalty": 4}, {"dist_weight": 5}])
+        par = dict(ntrim=3, ctrim=2, dist_weight=3, gap_penalty=12)
+        par.update(tk)
         letter = "A" if chain == "alpha" else "B"
         search_col = [r[0] if letter == "A" else r[2] for r in df.itertuples(index=False)]
-        edit_seqs = [s[3:len(s) - 2] for s in search_col] if trimmed else list(search_col)
+        edit_seqs = [s[par["ntrim"]:len(s) - par["ctrim"]] for s in search_col] if trimmed else list(search_col)
         nrow = len(df)
         vd = [[Fraction(0)] * nrow for _ in range(nrow)]
         cd = [[Fraction(0)] * nrow for _ in range(nrow)]
@@ -159,14 +185,17 @@ def run(chk):
             for i in range(nrow):
                 for j in range(nrow):
                     vd[i][j] += M[pos[colv[i]]][pos[colv[j]]]
-                    cd[i][j] += pwseqdist.cdr3_distance(col3[i], col3[j], ntrim=3, ctrim=2, dist_weight=3, gap_penalty=12)
+                    cd[i][j] += pwseqdist.cdr3_distance(col3[i], col3[j], **par)
         ops.append({"op": "nn_tcrdist" if nrow <= 7 else "nn_tcrdist_spec", "k": k, "edit_seqs": edit_seqs, "vd": [[core.fstr(x) for x in r] for r in vd],
                     "cd": [[core.fstr(x) for x in r] for r in cd], "max_tcrdist": core.fstr(max_t)})
         meta = {"rows": rows, "chain": chain, "edit_on_trimmed": trimmed, "max_edits": k, "max_tcrdist": max_t,
-                "index": [int(x) for x in df.index]}
+                "index": [int(x) for x in df.index], "tcrdist_kwargs": tk}
+        tk_before = dict(tk)
         metas.append(meta)
         reals.append(core.call_real(lambda: core.canon_trips([tuple(r) for r in np.asarray(
-            nn.nearest_neighbor_tcrdist(df, chain=chain, max_edits=k, edit_on_trimmed=trimmed, max_tcrdist=max_t)).tolist()])))
+            nn.nearest_neighbor_tcrdist(df, chain=chain, max_edits=k, edit_on_trimmed=trimmed, max_tcrdist=max_t, tcrdist_kwargs=tk)).tolist()])))
+        if tk != tk_before:
+            chk.violation("C14|nearest_neighbor_tcrdist|mutates-kwargs", "nearest_neighbor_tcrdist modified the caller's tcrdist_kwargs", meta)
     ans = core.run_driver_parallel(ops, nproc=8)
     for meta, real, a in zip(metas, reals, ans):
         model = ("ok", core.canon_model_trips(a[1])) if a[0] == "ok" else a
